@@ -59,6 +59,8 @@ BUILD = {
     "b_related": S1 + "EQUILIBRIUM_PHASES 13\n Calcite 0 0.05\n Goethite 0 0.01\nKINETICS 13\n dec\n -formula NaCl 1\n -m0 0.02\n -parms 2e-4\n -steps 500 1000\n"
                  "EXCHANGE 13\n X Calcite equilibrium_phase 0.05\n Y dec kinetic_reactant 0.25\n -equilibrate 1\nSURFACE 13\n Hfo_w Goethite equilibrium_phase 0.2 5.3e4\n -equilibrate 1\n"
                  "SAVE solution 13\nSAVE exchange 13\nSAVE surface 13\nSAVE equilibrium_phases 13\nEND\n",
+    # a rate with 13 parameters: the RAW dump spreads -d_params over three lines (5 + 6 + 2)
+    "b_kin_parms": "SOLUTION 14\n pH 7.2\n Na 4\n Cl 4 charge\n Ca 0.5\n C 1\nKINETICS 14\n multi\n -formula NaCl 1 KBr 0.5\n -m0 0.02\n -parms 1e-7 2 3 4 5 6 2 0.5 1.5 0.25 7 8 9\n -steps 300 600\n -tol 1e-9\nSAVE solution 14\nEND\n",
     "b_redox": "SOLUTION 10\n pH 6.5\n pe 2\n Fe(2) 0.1\n Fe(3) 0.002\n N(5) 0.4\n N(-3) 0.05\n S(6) 1\n S(-2) 0.001\n Na 3\n Cl 2 charge\n -water 0.7\nEND\n",
 }
 BUILD_DB = {k: "phreeqc" for k in BUILD}
@@ -66,7 +68,7 @@ BUILD["b_iso"] = None
 BUILD_DB["b_iso"] = "iso"
 BUILD["b_pitzer"] = c07.STICKY["h_pz"] + "USE solution 1\nEQUILIBRIUM_PHASES 1\n Halite 0 0\n Gypsum 0 1\nSAVE solution 2\nSAVE equilibrium_phases 2\nEND\n"
 BUILD_DB["b_pitzer"] = "pitzer"
-PROLOGUE = {"phreeqc": "EXCHANGE_MASTER_SPECIES\n Y Y-\nEXCHANGE_SPECIES\n Y- = Y-\n log_k 0\n Na+ + Y- = NaY\n log_k 0\n K+ + Y- = KY\n log_k 0.7\n Ca+2 + 2Y- = CaY2\n log_k 0.8\nRATES\n dec\n -start\n10 SAVE parm(1) * M * TIME\n -end\n grow\n -start\n10 SAVE -parm(1) * TIME\n -end\n decay\n -start\n 10 rate = parm(1) * TOT(\"Na\")\n 20 moles = rate * TIME\n 30 SAVE moles\n -end\n"
+PROLOGUE = {"phreeqc": "EXCHANGE_MASTER_SPECIES\n Y Y-\nEXCHANGE_SPECIES\n Y- = Y-\n log_k 0\n Na+ + Y- = NaY\n log_k 0\n K+ + Y- = KY\n log_k 0.7\n Ca+2 + 2Y- = CaY2\n log_k 0.8\nRATES\n dec\n -start\n10 SAVE parm(1) * M * TIME\n -end\n grow\n -start\n10 SAVE -parm(1) * TIME\n -end\n decay\n -start\n 10 rate = parm(1) * TOT(\"Na\")\n 20 moles = rate * TIME\n 30 SAVE moles\n -end\n multi\n -start\n 10 r = parm(1) * (parm(2) + parm(3) + parm(4) + parm(5) + parm(6)) * parm(7) ^ parm(8) * (parm(9) + parm(10)) / (parm(11) + parm(12) + parm(13))\n 20 SAVE r * TIME\n -end\n"
                         " cc\n -start\n 10 si_cc = SI(\"Calcite\")\n 20 rate = parm(1) * (1 - 10^si_cc)\n 30 moles = rate * TIME\n 40 SAVE moles\n -end\nEND\n",
             "iso": "", "pitzer": ""}
 SEL = "SELECTED_OUTPUT 9\n -reset false\n -high_precision true\n -solution\n -pH\n -alkalinity\n -ionic_strength\n -water\n -charge_balance\n -totals Ca Na C Cl Fe S Sr\n -si Calcite\n"
